@@ -266,12 +266,11 @@ int main(void)
 		ctx_of[I0_A + 2 * j] = ctx_of[I0_Z + 2 * j] = inst[j];
 		depth_of[I0_A + 2 * j] = depth_of[I0_Z + 2 * j] = 1;
 	}
+	V_IN_UINT(vin_trmask); /* filter answers: one bit per option (inputs outside the loop so that a replay sees each one) */
+	V_IN_UINT(vin_timask);
 	for (k = 0; k < NOPT; k++) {
-		V_IN_BOOL(vin_tr);
-		V_IN_BOOL(vin_ti);
-
-		tabR[k] = vin_tr;
-		tabI[k] = vin_ti;
+		tabR[k] = (vin_trmask >> k) & 1;
+		tabI[k] = (vin_timask >> k) & 1;
 		/* which options carry a print callback is a concrete parameter (bit mask) */
 		has_pf[k] = ((PFMASK >> k) & 1) && optp[k]->type != CFGT_SEC;
 		if (has_pf[k])
@@ -280,11 +279,21 @@ int main(void)
 	has_root = HAS_ROOT;
 	has_inst1 = HAS_INST1;
 	/* now the filters the print has to honour */
+#if HAS_ROOT == 2
+	/* induction step for any nesting depth: the tree's top context has no filter of its own and is printed
+	 * by the recursive function with an INHERITED filter, as an intermediate section is; it must apply that
+	 * filter to its own options and hand it down to its sections */
+	cfg_set_print_filter_func(&root, NULL);
+	if (has_inst1)
+		cfg_set_print_filter_func(inst[1], filt_inst);
+	rc = cfg_print_pff_indent(&root, (FILE *)&root, filt_root, INDENT0) == 0 ? CFG_SUCCESS : CFG_FAIL;
+#else
 	cfg_set_print_filter_func(&root, has_root ? filt_root : NULL);
 	if (has_inst1)
 		cfg_set_print_filter_func(inst[1], filt_inst);
 
 	rc = cfg_print_indent(&root, (FILE *)&root, INDENT0);
+#endif
 	V_ASSERT(rc == CFG_SUCCESS, "[C19] printing succeeds");
 	V_ASSERT(bad_events == 0, "[C19] nothing but option lines, section brackets and values is written");
 	V_ASSERT(wrong_ctx == 0, "[C19] a filter is asked about an option together with the context that owns it");
